@@ -47,3 +47,7 @@ Print Assumptions C10_count_top_is_perft.
 Print Assumptions C10_count_top_c_exact.
 Print Assumptions C10_count_positions_is_perft.
 Print Assumptions count_top_total.
+
+(* the command-line driver: one generator reused across the depths 1..d *)
+Check @PerftCache.cli_counts_exact.
+Print Assumptions PerftCache.cli_counts_exact.
